@@ -346,6 +346,7 @@ func (c *client) setupRequestChan() chan clientRequest {
 	requests := make(chan clientRequest)
 
 	c.doRequest = func(ctx context.Context, cr clientRequest) (clientResponse, error) {
+		vpoint(c, "req.params", "id", cr.req.ID, "method", cr.req.Method, "params", string(cr.req.Params))
 		vpoint(c, "req.enq.pre", "id", cr.req.ID, "method", cr.req.Method)
 		select {
 		case requests <- cr:
